@@ -166,6 +166,13 @@ def cases(tier, rng):
     for (lvl, c) in rs_py.qr_zero_contents(rng, per=1 if quick else 6):
         lines.append("qr %d 3 %s" % (lvl, hx(c)))
         lines.append("qr %d 0 %s" % (lvl, hx(c)))
+    # every short length x level x alphabet, explicit mode and Auto (the bit count that selects the version is
+    # computed per mode: 10 bits per 3 digits, 11 per 2 characters - an odd length, a remainder of 1 or 2 matters)
+    for l in range(4):
+        for n in (range(1, 62) if quick else range(1, 330)):
+            for m in (1, 2, 3):
+                c = content_for(m, n, rng)
+                lines.append("qr %d %d %s" % (l, m if (n + l) % 2 else 0, hx(c)))
     # normalisation probes (BOM, NUL, blanks ...), UTF-8 oddities, magic sequences, big-valued digit runs (lib/gaps.py)
     import gaps
     lines += gaps.family(rng, tier, ("qr",))
